@@ -925,6 +925,27 @@ namespace hgraph
                                  !runtime.layout.has_input() ||
                                  ready_to_evaluate(view, evaluation_time);
 
+            // Scheduler tail: consume the fired event(s) or re-arm the timer. Runs
+            // after the evaluation, and also when the evaluation throws (the error
+            // may be captured further out and the run continue): otherwise a
+            // wake-up requested earlier would be lost, because the graph slot was
+            // overwritten by whatever triggered this evaluation.
+            const auto scheduler_tail = [&] {
+                if (!has_scheduler) { return; }
+                auto         &graph = *view.graph_value();
+                NodeScheduler sched{*scheduler, &graph, view.node_index(), evaluation_time};
+                if (scheduled_now)
+                {
+                    sched.advance();  // consume the fired event(s) and re-arm the next
+                }
+                else if (sched.is_scheduled())
+                {
+                    // Ran for another reason (an input ticked): just re-arm the timer.
+                    graph.schedule_node(view.node_index(), sched.next_scheduled_time());
+                }
+            };
+            auto scheduler_tail_on_throw = UnwindCleanupGuard(scheduler_tail);
+
             if (do_eval)
             {
                 if (callbacks(context).evaluate)
@@ -950,20 +971,8 @@ namespace hgraph
                 }
             }
 
-            if (has_scheduler)
-            {
-                auto         &graph = *view.graph_value();
-                NodeScheduler sched{*scheduler, &graph, view.node_index(), evaluation_time};
-                if (scheduled_now)
-                {
-                    sched.advance();  // consume the fired event(s) and re-arm the next
-                }
-                else if (sched.is_scheduled())
-                {
-                    // Ran for another reason (an input ticked): just re-arm the timer.
-                    graph.schedule_node(view.node_index(), sched.next_scheduled_time());
-                }
-            }
+            scheduler_tail_on_throw.release();
+            scheduler_tail();
             return true;
         }
 
